@@ -71,6 +71,12 @@ CLAIMED = {
   "technique": "Lean 4 executable model of build/reload histories with exact correspondence + Lean proofs (idempotence, no-pending across calls) + differential oracle against from-scratch builds",
   "design_ref": "4 C19",
  },
+ "C05": {
+  "text": "Lean 4 theorems on the checksum plumbing of the builder model, for every world and state: the request queued for a specifier carries the lockfile's checksum (which wins over anything recorded during the build) and both the load and the single cache-bypassing retry present exactly that checksum; at most one retry, only after a checksum failure; content rejected on the first load and not accepted by the retry is an integrity error (mismatch_never_admitted); a checksummed specifier that redirects is rejected; a newly seen remote non-declaration module gets the hash of the bytes used recorded, nothing is recorded for a specifier the lockfile (or an earlier write) already knows, for declaration files, local files or without a locker; writes are append-only. Tied to /repo by exact correspondence (slots, redirects, every loader call with cache setting and checksum, lockfile writes with values, in order) on generated worlds with absent/matching/mismatching lockfile entries and tampered caches, a recording Locker and a checksum-verifying loader; implementation-side oracle for each clause.",
+  "note": "Scope of this check: remote http(s) modules (static, dynamic, asset, redirect-target loads). Registry manifests and package files (checksums from version manifests, lockfileChecksum) are not yet covered (partial). That the loader verifies a checksum is the embedder's duty by the trait contract (the harness loader does); SHA-256 itself is an uninterpreted hash in the model. A resource delivered through a loader-internal redirect cannot be checked against its own lockfile entry (deno_graph never requested it): counted, outside the statement.",
+  "technique": "Lean 4 proof (decision logic and append-only bookkeeping stated outright) + exact model-vs-implementation correspondence of loader/locker traffic",
+  "design_ref": "4 C05",
+ },
 }
 NOT_APPLICABLE = {}
 ALL = [f"C{i:02d}" for i in range(1, 21)]
